@@ -59,7 +59,31 @@ pub enum Q {
 impl Q {
     /// known to the Lean model
     fn modelled(&self) -> bool {
-        !matches!(self, Q::Rel(..) | Q::Tags(..) | Q::FitsRoot(..) | Q::Impl(_) | Q::Choices(_))
+        !matches!(self, Q::Choices(_))
+    }
+    /// the query as the Lean driver reads it (`C14 runx`): the kinds of C13 part 2 have their own spelling
+    fn write_model(&self, out: &mut Vec<String>) {
+        match self {
+            Q::Tags(p) => out.extend(["assoc".into(), vx::h(p), vx::h("tags")]),
+            Q::Rel(r, n, t) => {
+                // no resolver records, no target; the subject with every tag in key order, a Ref by its id
+                let d = subject(r);
+                out.extend(["rel".into(), "0".into(), vx::h(n), vx::ho(t), "-".into(), "-".into()]);
+                out.push(match d.get_ref("id") {
+                    Some(r) => vx::h(&r.value),
+                    None => "-".into(),
+                });
+                out.push(d.len().to_string());
+                for (k, v) in d.iter() {
+                    out.push(vx::h(k));
+                    out.push(match v {
+                        Value::Ref(r) => vx::h(&r.value),
+                        _ => "-".into(),
+                    });
+                }
+            }
+            _ => self.write(out),
+        }
     }
     /// the set of cached keys after the query does not depend on hash-set iteration order
     fn deterministic_footprint(&self) -> bool {
@@ -420,9 +444,14 @@ impl Reference {
 }
 
 fn model_threads_tokens(qss: &[Vec<Q>]) -> String {
-    let only: Vec<Vec<Q>> = qss.iter().map(|qs| qs.iter().filter(|q| q.modelled()).cloned().collect()).collect();
-    let mut t = vec![];
-    write_threads(&only, &mut t);
+    let mut t = vec![qss.len().to_string()];
+    for qs in qss {
+        let only: Vec<&Q> = qs.iter().filter(|q| q.modelled()).collect();
+        t.push(only.len().to_string());
+        for q in only {
+            q.write_model(&mut t);
+        }
+    }
     t.join(" ")
 }
 
@@ -681,7 +710,7 @@ fn exec_seq(src: &GraphSrc, o: &Oracle, qs: &[Q], out: &mut CaseOut) {
         let det = qs.iter().all(|q| q.deterministic_footprint());
         let model_ans = answers.join("/");
         out.req(
-            format!("C14 run {} {} 3 {} 0", det as u8, c13::model_graph_tokens(src.rows()), model_threads_tokens(&[qs.to_vec()])),
+            format!("C14 runx {} {} 3 {} 0", det as u8, c13::model_graph_tokens_x(src.rows()), model_threads_tokens(&[qs.to_vec()])),
             if det { format!("ok {model_ans} # {sup_s} # {inh_s}") } else { format!("ok {model_ans}") },
         );
     }
@@ -740,7 +769,7 @@ fn exec_conc(src: &GraphSrc, o: &Oracle, seed: u64, qss: &[Vec<Q>], sched: &[usi
     let mut st = vec![sched.len().to_string()];
     st.extend(sched.iter().map(|t| t.to_string()));
     out.req(
-        format!("C14 run {} {} 3 {} {}", det as u8, c13::model_graph_tokens(src.rows()), model_threads_tokens(qss), st.join(" ")),
+        format!("C14 runx {} {} 3 {} {}", det as u8, c13::model_graph_tokens_x(src.rows()), model_threads_tokens(qss), st.join(" ")),
         if det { format!("ok {} # {sup_s} # {inh_s}", thread_ans.join(";")) } else { format!("ok {}", thread_ans.join(";")) },
     );
     unsafe {
